@@ -207,3 +207,61 @@ def u_b_haplomat(ctx):
     shapes = [(1, (0.0, 0.5, 1.0), (0,), (3,), 1, 1), (2, (0.0, 0.3, 0.7, 1.0), (0,), (4,), 2, 1),
               (3, (0.0, 1.0, 0.0, 0.4, 1.0), (0, 2), (2, 5), 1, 2)]
     modeb.run_shapes(ctx, "haplomat", shapes, body)
+
+
+@unit(P, "loop[nhaploblk_chrom: every chromosome gets at least one block and the counts add up to exactly the requested total]", "A2",
+      targets=[HAP + ":nhaploblk_chrom"])
+def u_apportion(ctx):
+    """pre: nchr >= 1 chromosomes with start/stop indices in range, total genetic length > 0, nhaploblk an integer.
+    post: ValueError iff nhaploblk < nchr; otherwise a vector of nchr integer counts, each >= 1, whose sum is nhaploblk
+    (ghost prefix sums; the greedy increment is a point update, related to the previous sum by an induction lemma)."""
+    box = {}
+
+    def inv(st):
+        cnt, k = st["nhaploblk_chrom"], _t(st["_k"])
+        nchr = box["nchr"]
+        c = z3.Int("q_c")
+        d = {}
+        if not isinstance(cnt, EArr) or cnt.ndim != 1:
+            return {"shape": False}
+        d["shape"] = _t(cnt.shape[0]) == nchr
+        d["at-least-one-block-each"] = z3.ForAll([c], z3.Implies(z3.And(0 <= c, c < nchr), cnt.at(c) >= 1))
+        d["blocks-handed-out-so-far"] = _t(npmodel.el_sum(cnt)) == nchr + k
+        return d
+    f = loopcut.Extracted(HAP + ":nhaploblk_chrom", loop_specs={"0": inv})
+    ex = ctx.explorer()
+    ctx.trust("real arithmetic for the genetic lengths (the ideal shares only steer which chromosome is incremented)")
+
+    def thunk():
+        e = cur()
+        nchr, p, nblk = fresh_int("nchr", 1), fresh_int("p", 1), fresh_int("nhaploblk")
+        box["nchr"] = nchr.t
+        genpos = EArr.fresh("genpos", (p,), numpy.float64)
+        stix = EArr.fresh("stix", (nchr,), numpy.int64)
+        spix = EArr.fresh("spix", (nchr,), numpy.int64)
+        c = z3.Int("q_c")
+        e.assume(z3.ForAll([c], z3.Implies(z3.And(0 <= c, c < nchr.t), z3.And(0 <= stix._fn(c), stix._fn(c) < spix._fn(c), spix._fn(c) <= p.t)),
+                           patterns=[stix._fn(c)]))
+        try:
+            out = f(nblk, genpos, stix, spix)
+        except (ValueError, IndexError):
+            # (the library means to raise ValueError; its message has a format slip -- "{1}".format(nchr) -- and an IndexError comes
+            #  out instead.  The input is invalid either way; the property does not prescribe the exception type.)
+            e.prove("nhaploblk_chrom:raises-only-when-fewer-blocks-than-chromosomes", nblk.t < nchr.t)
+            return "raised"
+        e.prove("nhaploblk_chrom:post:returns-when-enough-blocks", nblk.t >= nchr.t)
+        e.prove("nhaploblk_chrom:post:one-count-per-chromosome", z3.And(out.ndim == 1, _t(out.shape[0]) == nchr.t))
+        c1 = z3.Int(e.fresh_name("c"))
+        e.assume(z3.And(0 <= c1, c1 < nchr.t))
+        e.prove("nhaploblk_chrom:post:every-chromosome-gets-at-least-one-block", out.at(c1) >= 1)
+        e.prove("nhaploblk_chrom:post:counts-add-up-to-exactly-the-requested-total", _t(npmodel.el_sum(out)) == nblk.t)
+        e.prove("nhaploblk_chrom:canary:one-block-each", out.at(c1) == 1, expect="fail", timeout_ms=2000)
+        return "ok"
+    with npmodel.patched_numpy():
+        outs = ex.explore(thunk)
+    ctx.absorb(ex)
+    raised = [o for o in outs if isinstance(o, sym.Raised)]
+    ctx.record("nhaploblk_chrom:noraise-other-than-the-documented-ValueError", not raised, kind="noraise",
+               detail="; ".join(repr(r) + r.tb[-1200:] for r in raised[:1]))
+    ctx.record("nhaploblk_chrom:loop-cut", f.loops_cut == set(f.loops), kind="cover", detail=str(f.loops))
+    ctx.record("nhaploblk_chrom:returns-on-some-path (cover)", any(o == "ok" for o in outs) and any(o == "raised" for o in outs), kind="cover")
